@@ -54,7 +54,7 @@ func class(in string) string {
 		return "fullwidth-separator"
 	case strings.Contains(in, "‍") || strings.Contains(in, "́"):
 		return "joiner-or-combining"
-	case strings.Contains(in, "xn--"):
+	case strings.Contains(strings.ToLower(in), "xn--"):
 		return "a-label"
 	case strings.ContainsAny(in, "[]:"):
 		return "ip-literal"
@@ -144,7 +144,7 @@ func checkJID1(j jid.JID, how, in string) *nd.Violation {
 	return nil
 }
 
-var alphabet = []string{"a", "A", "ß", "ǅ", "ſ", "ａ", "é", "é", "‍", "@", "＠", "/", "／", ".", "。", "-", "xn--", "[", "]", ":", "1", "'", "&", "<", " ", " ", "\xff", "\u00ad"}
+var alphabet = []string{"a", "A", "ß", "ǅ", "ſ", "ａ", "é", "é", "‍", "@", "＠", "/", "／", ".", "。", "-", "xn--", "Xn--4ca", "[", "]", ":", "1", "'", "&", "<", " ", " ", "\xff", "\u00ad"}
 
 func parseBody(maxLen int) nd.Body {
 	return func(c *nd.Ctx) nd.Result {
@@ -211,7 +211,7 @@ var expandLocal = strings.Repeat("Ⱥ", 511) // 1022 bytes, lower-cases to 1533 b
 var expandDomain = strings.TrimSuffix(strings.Repeat("xn--wgv"+strings.Repeat("a", 56)+".", 15), ".") // 959 bytes of A-labels, > 1023 bytes as U-labels
 
 var localPool = []string{expandLocal, "\u00ad", "", "a", "A", "a\tb", "\x1b", "ß", "ǅ", "ａ", "é", "a@b", "＠", "a/b", "a b", "a'", "a‍", "\xff", long1023, long1024, "ſ", "1"}
-var domainPool = []string{expandDomain, "\u00ad", "a\u00ad", "\u200b", "", "a", "A.b", "example.com", "example.com.", "example.com..", "EXAMPLE。com", "a。", "xn--bcher-kva.example", "xn--a", "xn--", "bücher.example", "[::1]", "[::A]", "[::1", "[fe80::1%eth0]", "[fe80::1%eth0/1]", "[fe80::1%a@b]", "127.0.0.1", "127.0.0.1.", "1.2.3", "a@b", "a/b", "a／b", "a＠b", "-a", "a-", "a b", "a‍b", ".", "..", "\xff", longDom, longDom2, "ß.example", "ǅ.example", "ａ.example", "[127.0.0.1]", "a_b",
+var domainPool = []string{expandDomain, "\u00ad", "a\u00ad", "\u200b", "", "a", "A.b", "example.com", "example.com.", "example.com..", "EXAMPLE。com", "a。", "xn--bcher-kva.example", "XN--BCHER-KVA.example", "Xn--Bcher-Kva.EXAMPLE", "xn--a", "xn--", "bücher.example", "[::1]", "[::A]", "[::1", "[fe80::1%eth0]", "[fe80::1%eth0/1]", "[fe80::1%a@b]", "127.0.0.1", "127.0.0.1.", "1.2.3", "a@b", "a/b", "a／b", "a＠b", "-a", "a-", "a b", "a‍b", ".", "..", "\xff", longDom, longDom2, "ß.example", "ǅ.example", "ａ.example", "[127.0.0.1]", "a_b",
 	"\u03b2\u03cc\u03bb\u03bf\u03c2.example", "\u03b2\u03cc\u03bb\u03bf\u03c3.example"} // final and medial sigma: equal under simple case folding, distinct domains under non-transitional IDNA
 var resPool = []string{"", "a", "A", "a/b", "a@b", "/", "@", " ", "a\tb", "a\nb", "a\x00", "\x7f", "a b", "a b", "ａ", "é", "it's<&>\"", "\xff", long1023, long1024, "‍", "ß"}
 
@@ -403,7 +403,7 @@ func init() {
 	drv.Register(&drv.Prop{
 		ID:    "C11",
 		Level: "exploration",
-		Rule: "Parse/SplitString/ParseUnsafe on every string over a 28-symbol alphabet (ASCII, case/width variants, combining marks, ZWJ, both separators and their fullwidth forms, dots, xn--, brackets, invalid UTF-8) up to the tier's length; New and WithLocal/WithDomain/WithResource on the full cross product of part pools (incl. 1023/1024-byte parts, IP literals, A-labels, trailing dots); " +
+		Rule: "Parse/SplitString/ParseUnsafe on every string over a 29-symbol alphabet (ASCII, case/width variants, combining marks, ZWJ, both separators and their fullwidth forms, dots, xn--, brackets, invalid UTF-8) up to the tier's length; New and WithLocal/WithDomain/WithResource on the full cross product of part pools (incl. 1023/1024-byte parts, IP literals, A-labels, trailing dots); " +
 			"every returned address is checked for canonical form (re-parse equality), part rules, accessor consistency and XML attr/element round trip. Non-trivial = distinct accepted input that the package normalised (string form differs from input) or a distinct accepted parts triple.",
 		Assumptions: []string{"Unicode outside the alphabet and pools is not covered", "encoding/xml is the XML judge"},
 		Parts: func(tier string) []drv.Part {
